@@ -1,1 +1,71 @@
-(* C05 -- theorems to be stated here. *)
+(* C05 -- ciphertext stealing follows NIST SP 800-38A Addendum CS1/CS2/CS3 (CBC and ECB).
+   For every cipher with well-formed sizes (any block size, any parallel width -- the helpers are
+   width-free by Props/C07.v), every IV, every message of L >= bs bytes presented as nb >= 1 whole
+   blocks followed by a tail shorter than a block, in place or buffer-to-buffer with ANY output
+   contents ([msg_mem]): each of the six encryption bodies returns Ok (in particular: no panic) and
+   the output equals the layout of Cts_spec.v computed from plain CBC / ECB of the zero-padded
+   message; |ciphertext| = |message| (the output buffer keeps its length).
+   The CS3 statements hold for the code after the repair of finding F1 (fix: commit in /repo).
+   PARTIAL: the six decryption bodies ("decryption inverts each") are not proved here yet; they are
+   covered by the correspondence and by the implementation-side predicates of gen/props/c05.py
+   (decryption of the standard's ciphertext) and gen/props/c01.py. *)
+From BM Require Import Outcome Cipher Plumbing Spec Cts Cts_mem Cts_spec Cts_cs_proofs.
+
+Theorem C05_cbc_cs1_enc : forall (C : cipher), cipher_wf C -> forall iv m blocks tail,
+  length iv = c_bs C -> msg_mem C m blocks tail ->
+  exists m', cbc_cs1_enc C iv m = Ok m' /\ m_out m' = cbc_cs1_spec (c_bs C) (c_E C) iv blocks tail.
+Proof. exact cbc_cs1_enc_ok. Qed.
+Print Assumptions C05_cbc_cs1_enc.
+
+Theorem C05_cbc_cs2_enc : forall (C : cipher), cipher_wf C -> forall iv m blocks tail,
+  length iv = c_bs C -> msg_mem C m blocks tail ->
+  exists m', cbc_cs2_enc C iv m = Ok m' /\ m_out m' = cbc_cs2_spec (c_bs C) (c_E C) iv blocks tail.
+Proof. exact cbc_cs2_enc_ok. Qed.
+Print Assumptions C05_cbc_cs2_enc.
+
+Theorem C05_cbc_cs3_enc : forall (C : cipher), cipher_wf C -> forall iv m blocks tail,
+  length iv = c_bs C -> msg_mem C m blocks tail ->
+  exists m', cbc_cs3_enc C iv m = Ok m' /\ m_out m' = cbc_cs3_spec (c_bs C) (c_E C) iv blocks tail.
+Proof. exact cbc_cs3_enc_ok. Qed.
+Print Assumptions C05_cbc_cs3_enc.
+
+Theorem C05_ecb_cs1_enc : forall (C : cipher), cipher_wf C -> forall m blocks tail, msg_mem C m blocks tail ->
+  exists m', ecb_cs1_enc C m = Ok m' /\ m_out m' = ecb_cs1_spec (c_bs C) (c_E C) blocks tail.
+Proof. exact ecb_cs1_enc_ok. Qed.
+Print Assumptions C05_ecb_cs1_enc.
+
+Theorem C05_ecb_cs2_enc : forall (C : cipher), cipher_wf C -> forall m blocks tail, msg_mem C m blocks tail ->
+  exists m', ecb_cs2_enc C m = Ok m' /\ m_out m' = ecb_cs2_spec (c_bs C) (c_E C) blocks tail.
+Proof. exact ecb_cs2_enc_ok. Qed.
+Print Assumptions C05_ecb_cs2_enc.
+
+Theorem C05_ecb_cs3_enc : forall (C : cipher), cipher_wf C -> forall m blocks tail, msg_mem C m blocks tail ->
+  exists m', ecb_cs3_enc C m = Ok m' /\ m_out m' = ecb_cs3_spec (c_bs C) (c_E C) blocks tail.
+Proof. exact ecb_cs3_enc_ok. Qed.
+Print Assumptions C05_ecb_cs3_enc.
+
+(* the layouts, spelled out on C_1 .. C_{n-2}, C_{n-1} = a, C_n = b *)
+Theorem C05_layouts : forall (pre : list block) a b d,
+  cs1_layout (pre ++ [a; b]) d = concat pre ++ firstn d a ++ b /\
+  cs3_layout (pre ++ [a; b]) d = concat pre ++ b ++ firstn d a.
+Proof. exact cs_layouts_split. Qed.
+Print Assumptions C05_layouts.
+
+(* a one-block message is plain CBC / ECB in all three variants; on whole blocks CS1 = CS2 = plain *)
+Theorem C05_one_block_and_whole : forall bs (Cs : list block), all_len bs Cs ->
+  cs1_layout Cs bs = concat Cs /\ cs2_layout bs Cs bs = concat Cs /\ (length Cs <= 1 -> cs3_layout Cs bs = concat Cs).
+Proof.
+  intros bs Cs H. split; [now apply cs1_layout_whole|]. split.
+  - unfold cs2_layout. rewrite Nat.ltb_irrefl. now apply cs1_layout_whole.
+  - intros H1. unfold cs3_layout. apply Nat.leb_le in H1. now rewrite H1.
+Qed.
+Print Assumptions C05_one_block_and_whole.
+
+(* non-vacuity: a 5-byte in-place message over a 2-byte-block cipher is a [msg_mem] *)
+Example C05_msg_mem_example : forall E D,
+  msg_mem (mkcipher 2 1 E D) (mkmem true [1;2;3;4;5]%N [1;2;3;4;5]%N) [[1;2];[3;4]]%N [5]%N.
+Proof. intros E D. constructor; cbn; auto.
+  - split; auto.
+  - repeat constructor.
+Qed.
+Print Assumptions C05_msg_mem_example.
